@@ -240,6 +240,44 @@ def run(tier, seed, replay=None):
                 chk.nontrivial.add(str(case))
             if probs:
                 chk.violation(case, f"scan of tree #{ci} ({spelling} root, excludes {cfg}, .gitignore {gi}): " + "; ".join(probs[:3]))
+            # ---- a second, cache-assisted scan after files were renamed to another supported language with the same bytes
+            swaps = {".c": ".cpp", ".js": ".ts", ".cpp": ".c", ".ts": ".js"}
+            movable = [p for p in sorted(want) if os.path.splitext(p)[1] in swaps
+                       and os.path.splitext(p)[0] + swaps[os.path.splitext(p)[1]] not in {"/".join(c) for c, _ in walk_expected(nodes)}]
+            if channel == "command" and not probs and movable:
+                moved = {}
+                for pth in rng.sample(movable, min(len(movable), rng.choice([1, 1, 2]))):
+                    new = os.path.splitext(pth)[0] + swaps[os.path.splitext(pth)[1]]
+                    os.rename(os.path.join(root, pth), os.path.join(root, new))
+                    moved[pth] = new
+                want2 = {}
+                for pth, (lg, x) in want.items():
+                    if pth in moved:
+                        new = moved[pth]
+                        if spec.match_file(new):
+                            continue
+                        lg2 = supported_table({os.path.basename(new)})[os.path.basename(new)]
+                        if lg2 is not None:               # e.g. Makefile.js is a Makefile for the lexer table
+                            want2[new] = (lg2, x)
+                    else:
+                        want2[pth] = (lg, x)
+                os.chdir(os.path.join(top, "outer"))
+                try:
+                    with contextlib.redirect_stdout(io.StringIO()):
+                        cli_main.scan(path=arg, exclude=list(cfg_opt) or None, verbose=False)
+                    cb2 = ReportReader.from_json(open(os.path.join(root, ".codelimit_cache", "codelimit.json")).read()).codebase
+                    got2 = {pth: (e.language, table.get(e.checksum(), (None, None))[0]) for pth, e in cb2.files.items()}
+                    if got2 != want2:
+                        chk.violation(dict(case, renamed=moved),
+                                      f"tree #{ci}: after renaming {moved} a second (cache-assisted) scan reports "
+                                      f"{sorted(set(got2.items()) ^ set(want2.items()))[:4]} differently from the rule")
+                except Exception as ex:
+                    chk.violation(dict(case, renamed=moved), f"second scan after renaming {moved} raised {type(ex).__name__}: {ex}")
+                finally:
+                    os.chdir(old_cwd)
+                    Configuration.exclude = []
+                chk.evaluations += 1
+                chk.count("second scan after renaming to another language")
             # ---- model
             ids = {}
             for nm, x in all_files(nodes):
